@@ -347,7 +347,7 @@ Section WithKernels.
   Proof.
     unfold step. intros H HI. destruct (live s o) eqn:HL; cbn [negb] in H; [|discriminate].
     destruct o as [c sh data og sa u|c src|t|t v|t v|t v|t sh data|t src|t|t p ip|t w ax ip
-                  |t f ax mean ip|t spec ax ip|t idx]; unfold change; cbn [returns_new op_target].
+                  |t f ax mean ip|t spec ax ip|t idx|t r|t dt]; unfold change; cbn [returns_new op_target].
     - (* from_array on a new ndarray *)
       destruct (alloc_fresh_spec s sh data) as (E1 & D1 & A1 & L1 & N1).
       destruct (alloc_fresh s sh data) as [s1 aid]. cbn [fst snd] in *. subst aid.
@@ -434,6 +434,26 @@ Section WithKernels.
         destruct (alloc_view s (d_arr (get_ds s t)) (np_shape x) (np_flat x)) as [s1 aid]. cbn [fst snd] in *. subst aid.
         destruct (from_array_built _ _ _ _ _ _ _ H L1) as (E2 & d & D2 & G2 & _).
         split; [eapply ext_trans; eassumption|]. exists d. rewrite <- D1. split; assumption.
+    - (* get_dp_mean / max / median *)
+      unfold reduce_dp in H. cbn zeta in H.
+      destruct (d_cls (get_ds s t)); try discriminate.
+      destruct (a_shape (get_arr s (d_arr (get_ds s t)))) as [|n0 [|n1 [|n2 [|n3 [|n4 rest]]]]]; try discriminate.
+      inv_bind H.
+      destruct (alloc_fresh_spec s [n2; n3] x) as (E1 & D1 & A1 & L1 & N1).
+      destruct (alloc_fresh s [n2; n3] x) as [s1 aid]. cbn [fst snd] in *. subst aid.
+      destruct (from_array_built _ _ _ _ _ _ _ H L1) as (E2 & d & D2 & G2 & _).
+      split; [eapply ext_trans; eassumption|]. exists d. rewrite <- D1. split; assumption.
+    - (* get_virtual_image *)
+      unfold virtual_image in H. cbn zeta in H.
+      destruct (d_cls (get_ds s t)); try discriminate.
+      destruct (a_shape (get_arr s (d_arr (get_ds s t)))) as [|n0 [|n1 [|n2 [|n3 [|n4 rest]]]]]; try discriminate.
+      inv_bind H.
+      match type of H with (let (_, _) := alloc_fresh s ?sh ?fl in _) = _ =>
+        destruct (alloc_fresh_spec s sh fl) as (E1 & D1 & A1 & L1 & N1);
+        destruct (alloc_fresh s sh fl) as [s1 aid] end.
+      cbn [fst snd] in *. subst aid.
+      destruct (from_array_built _ _ _ _ _ _ _ H L1) as (E2 & d & D2 & G2 & _).
+      split; [eapply ext_trans; eassumption|]. exists d. rewrite <- D1. split; assumption.
   Qed.
 
   (* ---------------------------------------------------------------- clause 1: coherence *)
@@ -551,7 +571,7 @@ Section WithKernels.
         injection Ho as ->; apply andb_true_intro; (split; [apply Nat.ltb_lt; exact Ht|reflexivity]). }
     unfold step. rewrite !HL. cbn [negb].
     destruct o as [c sh data og sa u|c src|t0|t0 v|t0 v|t0 v|t0 sh data|t0 src|t0|t0 p ip|t0 w ax ip
-                  |t0 f ax mean ip|t0 spec ax ip|t0 idx]; try discriminate;
+                  |t0 f ax mean ip|t0 spec ax ip|t0 idx|t0 r|t0 dt]; try discriminate;
       cbn [op_target] in Ho; injection Ho as ->; cbn [with_flag].
     - (* pad *)
       rewrite !pad_eq. cbn zeta.
